@@ -1,7 +1,9 @@
 #!/bin/bash
-# usage: tools/try_seed.sh <seed-name> <worktree> <prop> [more props...]
-# Confirms the seeded change in its scratch worktree (suite passes, demo fails with / passes without),
-# applies it to /repo, runs the given checks, undoes it, and stores patch + demo + meta under seeded/<name>.
+# usage: tools/try_seed.sh <seed-name> <agent-worktree> <prop> [more props...]
+# Confirms the seeded change independently in a fresh scratch worktree of /repo (suite passes with the
+# change, demo fails with it and passes without), applies it to /repo, runs the given checks, undoes it,
+# and stores patch + demo + results under seeded/<name>. (No `git stash`: the stash is shared by all
+# worktrees of a repository.)
 set -u
 name=$1; wt=$2; shift 2
 out=/verif/seeded/$name
@@ -9,19 +11,26 @@ mkdir -p $out
 cp $wt/_seed/patch.diff $out/patch.diff
 cp $wt/_seed/seed_demo.rs $out/seed_demo.rs 2>/dev/null || cp $wt/examples/seed_demo.rs $out/seed_demo.rs
 cp $wt/_seed/NOTES.md $out/NOTES.md 2>/dev/null
-cd $wt
-suite=$(CARGO_NET_OFFLINE=true cargo test --offline 2>&1 | grep "test result" | tr '\n' ' ')
-CARGO_NET_OFFLINE=true cargo run --offline -q --example seed_demo >/dev/null 2>&1; with_rc=$?
-git stash -q -- src
+chk=/tmp/seedcheck_$$
+git -C /repo worktree add -q $chk HEAD
+cd $chk
+cp $out/seed_demo.rs examples/seed_demo.rs
 CARGO_NET_OFFLINE=true cargo run --offline -q --example seed_demo >/dev/null 2>&1; without_rc=$?
-git stash pop -q
+if git apply $out/patch.diff; then
+  suite=$(CARGO_NET_OFFLINE=true cargo test --offline 2>&1 | grep "test result" | tr '\n' ' ')
+  CARGO_NET_OFFLINE=true cargo run --offline -q --example seed_demo >/dev/null 2>&1; with_rc=$?
+else
+  suite="PATCH DOES NOT APPLY"; with_rc=-1
+fi
+cd /verif
+git -C /repo worktree remove --force $chk
 echo "suite: $suite"
 echo "demo with change rc=$with_rc (want != 0), without rc=$without_rc (want 0)"
-cd /repo && git apply $out/patch.diff || { echo "patch does not apply"; exit 2; }
+cd /repo && git apply $out/patch.diff || { echo "patch does not apply to /repo"; exit 2; }
 cd /verif
 results=""
 for p in "$@"; do
-  line=$(./check $p 2>&1 | grep -E "^(VIOLATION|OK|KNOWN)" | grep -v KNOWN | head -2 | tr '\n' ' ')
+  line=$(./check $p 2>&1 | grep -E "^(VIOLATION|OK)" | head -2 | tr '\n' ' ')
   echo "$p: $line"
   results="$results$p: $line\n"
 done
